@@ -8,7 +8,7 @@ from ..program import AnalysisError, Program, norm, walk_local, ancestors
 from ..report import Check
 from ..types import Types
 from ..util import calls_in, fkey, is_method_call, node_calls, path_of, recv_of, stores_to_attr, where
-from .mgr import module_writers, MGR, CORE, Dispatch, self_call, live_follow
+from .mgr import iterates_loggers, module_writers, MGR, CORE, Dispatch, self_call, live_follow
 from .c14 import conn_error_handlers, catches_conn_error
 from .c19 import module_param
 
@@ -439,7 +439,7 @@ def run(prog: Program, chk: Check):
     if sack_ is not None:
         ag_ = C.build(sack_.node)
         lg_ = [n for n in ag_.nodes for c in node_calls(n) if self_call("send_to_loggers")(c)]
-        lg_ += [n for n in ag_.nodes if n.kind == "for" and "logger_modules" in norm(n.ast.iter)
+        lg_ += [n for n in ag_.nodes if n.kind == "for" and iterates_loggers(sack_.node, n.ast)
                 and any(is_method_call(cc, "send_message") and path_of(recv_of(cc)) == path_of(n.ast.target) for cc in calls_in(n.ast))]
         has_handler = any(isinstance(x, ast.ExceptHandler) for x in walk_local(sack_.node))
         D.decide(bool(lg_) and not flow.must_follow(ag_, [ag_.entry], lg_, exits=("exit",)), fkey(sack_, "ack-copy-after-failed-requester"), where(sack_),
